@@ -429,16 +429,6 @@ Proof.
   - eexists; split; reflexivity.
 Qed.
 
-(* arguments of the types inferred at a call site are in the callee's declared domain *)
-Lemma all_sub_sound : forall T a b vs, all_sub a b = true ->
-  Forall2 (fun t v => vty T t v = true) a vs -> Forall2 (fun t v => vty T t v = true) b vs.
-Proof.
-  induction a as [|x a IH]; destruct b as [|y b]; simpl; intros vs H F; try discriminate.
-  - inversion F; subst. constructor.
-  - apply andb_true_iff in H. destruct H as [Hs Hr]. inversion F; subst.
-    constructor; [apply (sub_sound _ _ _ _ Hs); assumption | apply IH; assumption].
-Qed.
-
 Lemma find_meth_In : forall n ms m, find_meth n ms = Some m -> In m ms /\ m_name m = n.
 Proof.
   induction ms as [|m0 ms IH]; simpl; intros m H; [discriminate|].
@@ -447,13 +437,30 @@ Proof.
   - destruct (IH _ H). auto.
 Qed.
 
+Lemma map_fst_combine : forall (A B : Type) (a : list A) (b : list B), length b = length a -> map fst (combine a b) = a.
+Proof.
+  induction a as [|x a IH]; destruct b as [|y b]; simpl; intros H; try discriminate; [reflexivity|].
+  f_equal. apply IH. lia.
+Qed.
+
+Lemma map_snd_combine : forall (A B : Type) (a : list A) (b : list B), length b = length a -> map snd (combine a b) = b.
+Proof.
+  induction a as [|x a IH]; destruct b as [|y b]; simpl; intros H; try discriminate; [reflexivity|].
+  f_equal. apply IH. lia.
+Qed.
+
+(* a call site: on every argument vector of the types inferred at the site the callee does not raise and
+   returns JSON *)
 Theorem site_sound : forall T ms s m vs,
-  forallb (meth_ok T) ms = true -> site_ok ms s = true -> find_meth (s_meth s) ms = Some m ->
+  site_ok T ms s = true -> find_meth (s_meth s) ms = Some m ->
   Forall2 (fun t v => vty T t v = true) (s_args s) vs ->
   exists v, call T m vs = Ok v /\ is_json v = true.
 Proof.
-  intros T ms s m vs Hms Hs Hf Hv. unfold site_ok in Hs. rewrite Hf in Hs.
-  apply meth_sound.
-  - rewrite forallb_forall in Hms. apply Hms. apply (find_meth_In _ _ _ Hf).
-  - apply (all_sub_sound _ _ _ _ Hs Hv).
+  intros T ms s m vs Hs Hf Hv. unfold site_ok in Hs. rewrite Hf in Hs.
+  apply andb_true_iff in Hs. destruct Hs as [Hl Hok]. apply Nat.eqb_eq in Hl.
+  assert (Hlen : length (s_args s) = length (map fst (m_params m))) by (rewrite map_length; exact Hl).
+  destruct (meth_sound T (retype m (s_args s)) vs Hok) as (v & Ev & Jv).
+  - unfold retype. simpl. rewrite map_snd_combine; [exact Hv | exact Hlen].
+  - exists v. split; [|exact Jv]. unfold call, bind_args, retype in *. simpl in Ev.
+    rewrite map_fst_combine in Ev; [exact Ev | exact Hlen].
 Qed.
